@@ -121,7 +121,51 @@ let tree_cmd (toks : string list) : string option =
       go queries;
       Some (Buffer.contents b)
 
-let handlers : (string list -> string option) list ref = ref [index_cmd; tree_cmd]
+(* ---- executor commands ---- *)
+let pids (l : z list) = String.concat "," (List.map string_of_int (List.sort compare (List.map zi l)))
+let pairs (l : (z * z) list) =
+  let l = List.sort compare (List.map (fun (a, b) -> (zi a, zi b)) l) in
+  String.concat " " (List.map (fun (a, b) -> Printf.sprintf "%d,%d" a b) l)
+let pairs_big (l : (z * z) list) =
+  String.concat " " (List.sort compare (List.map (fun (a, b) -> zs a ^ "," ^ zs b) l))
+
+let call_str (c : call) : string =
+  match c with
+  | CP2M (leaf, parts) -> Printf.sprintf "P2M %s : %s" (zs leaf) (pids parts)
+  | CM2M (l, p, ch) -> Printf.sprintf "M2M %s %s : %s" (zs l) (zs p) (pairs ch)
+  | CM2L (l, t, sr) -> Printf.sprintf "M2L %s %s : %s" (zs l) (zs t) (pairs sr)
+  | CL2L (l, p, ch) -> Printf.sprintf "L2L %s %s : %s" (zs l) (zs p) (pairs ch)
+  | CL2P (leaf, parts) -> Printf.sprintf "L2P %s : %s" (zs leaf) (pids parts)
+  | CP2P (s, t, code, sp, tp) -> Printf.sprintf "P2P %s %s %s : %s : %s" (zs s) (zs t) (zs code) (pids sp) (pids tp)
+  | CP2PTsm (s, t, code, sp, tp) -> Printf.sprintf "P2PTsm %s %s %s : %s : %s" (zs s) (zs t) (zs code) (pids sp) (pids tp)
+  | CP2PInner (leaf, parts) -> Printf.sprintf "P2PInner %s : %s" (zs leaf) (pids parts)
+  | CAssert id -> Printf.sprintf "ASSERT %s" (zs id)
+
+let exec_cmd (toks : string list) : string option =
+  match toks with
+  | "exec" :: d :: per :: h :: b :: mode :: stop :: nf :: rest ->
+      let nf = int_of_string nf in
+      let flags = take nf rest in
+      let rest = drop nf rest in
+      (match rest with
+       | n :: nums ->
+         (match parse_tree ("tree" :: d :: per :: h :: b :: mode :: n :: nums) with
+          | Some (d, per, _h, t, _idx, _) ->
+              let dn = nat_of_int d in
+              let b = Buffer.create 1024 in
+              Buffer.add_string b (dump_tree t);
+              Buffer.add_string b " || ";
+              let first = ref true in
+              List.iter (fun f ->
+                let calls = execute dn per (z_of_string stop) (z_of_string f) t in
+                List.iter (fun c -> if not !first then Buffer.add_string b " ; "; first := false; Buffer.add_string b (call_str c)) calls;
+                if not !first then Buffer.add_string b " ; "; first := false; Buffer.add_string b "--") flags;
+              Some (Buffer.contents b)
+          | None -> None)
+       | [] -> None)
+  | _ -> None
+
+let handlers : (string list -> string option) list ref = ref [index_cmd; tree_cmd; exec_cmd]
 
 let () =
   let ic = open_in Sys.argv.(1) in
